@@ -10,6 +10,7 @@ import (
 	"strings"
 	"sync"
 	"sync/atomic"
+	"syscall"
 	"time"
 )
 
@@ -90,10 +91,16 @@ func startProc(kind string) (*proc, error) {
 		return nil, err
 	}
 	cmd.Stderr = nil
+	// solver children must not outlive the checker (a killed run would leave
+	// them spinning on their last query)
+	cmd.SysProcAttr = &syscall.SysProcAttr{Pdeathsig: syscall.SIGKILL}
 	if err := cmd.Start(); err != nil {
 		return nil, err
 	}
 	p := &proc{kind: kind, cmd: cmd, in: in, lines: make(chan string, 256)}
+	allProcsMu.Lock()
+	allProcs[p] = true
+	allProcsMu.Unlock()
 	go func() {
 		r := bufio.NewReaderSize(out, 1<<20)
 		for {
@@ -113,7 +120,26 @@ func startProc(kind string) (*proc, error) {
 	return p, nil
 }
 
+var allProcsMu sync.Mutex
+var allProcs = map[*proc]bool{}
+
+// KillAll terminates every solver process started by this program.
+func KillAll() {
+	allProcsMu.Lock()
+	var ps []*proc
+	for p := range allProcs {
+		ps = append(ps, p)
+	}
+	allProcsMu.Unlock()
+	for _, p := range ps {
+		p.cmd.Process.Kill()
+	}
+}
+
 func (p *proc) kill() {
+	allProcsMu.Lock()
+	delete(allProcs, p)
+	allProcsMu.Unlock()
 	p.mu.Lock()
 	if p.dead {
 		p.mu.Unlock()
